@@ -106,6 +106,11 @@ def m_drop_header(rng, terms, segs):
             break
 
 
+# superscripts and circled digits: str.isdigit() yes, int() no; more than 4300 digits: int() refuses; signs, blanks, underscores: int() yes, isdigit() no;
+# Arabic-Indic and full-width digits: both yes
+HOSTILE_NUMERALS = ['\u00b2', '\u00b9\u2070', '\u2460', '\u00b2\u2070', '7' * 4400, '+5', '1_0', ' 5', '\u0663', '\uff15', '\u0be7', '5\u00b2', '\u2082']
+
+
 def m_counts(rng, terms, segs):
     idx = [i for i, s in enumerate(segs) if s[0] in TRAILERS + HEADERS + ('HL', 'LX') and i > 0]
     if not idx:
@@ -115,12 +120,19 @@ def m_counts(rng, terms, segs):
     bad = rng.choice(['X', '', '-1', '0', '99999999999999999999', '1.5', ' 1', '1 ', 'ⅷ', '١', None])
     pos = {'SE': [0, 1], 'GE': [0, 1], 'IEA': [0, 1], 'GS': [5, 0, 7], 'ST': [1, 0, 2], 'HL': [0, 1, 2, 3], 'LX': [0], 'ISA': [12, 11, 13]}.get(sid, [0])
     p = rng.choice(pos)
+    tag = None
+    if rng.random() < 0.3:
+        # text that some of Python's number tests call digits and its conversions refuse (or the other way round), in a count or number element
+        bad = rng.choice(HOSTILE_NUMERALS)
+        p = pos[0] if sid != 'HL' else rng.choice([0, 1])
+        tag = 'counts:hostile-numeral'
     if bad is None:
         del els[p:]
     else:
         while len(els) <= p:
             els.append([''])
         els[p] = [bad]
+    return tag
 
 
 def m_ele_surgery(rng, terms, segs):
@@ -198,8 +210,8 @@ def mutate(rng, text, n=None, eol='\n'):
     n = n or rng.randint(1, 4)
     for _ in range(n):
         name, fn = rng.choice(MUTATORS)
-        fn(rng, terms, segs)
-        names.append(name)
+        tag = fn(rng, terms, segs)
+        names.append(tag if isinstance(tag, str) else name)
     out = render(terms, segs, eol)
     r = rng.random()
     if r < 0.08 and len(out) > 10:
